@@ -22,7 +22,21 @@ LEVEL_NOTE = ("Determinism is a property of the runtime: half (B) is sampling, n
               "recycled LIFO and keep garbage); a replay with --only starts from a different heap history than the full run, so an "
               "address-dependent failure may need the full stream to reproduce. Nudged orthogonal display routes and VPSC positions come "
               "out of a floating division and are required to translate only up to 1e-9*scale (exactness is counted); raw routes must "
-              "translate exactly. Symmetries compare COSTS only (the route may differ among equal-cost alternatives). For ARBITRARY direction restrictions (tag route-symmetry-dirs-any) the unchanged library is not symmetric in about 7% of the generated scenes (one of two pins at the same position finds no path, which one depends on the frame; U-turns at a restricted free end are found in one frame and not in another); these are reported as SPECFAIL `route-symmetry[dirs-any] <kind>.<pin|free-end>: ...` (known finding C20-restricted-ends-asymmetric) and counted as STAT finding.dirs-any.*; the documented configurations (outward-looking end on the outer edge of the scene, single pin on the scene-boundary side) have their own tag route-symmetry-dirs and are quiet on the unchanged tree.")
+              "translate exactly. Symmetries compare COSTS only (the route may differ among equal-cost alternatives). For ARBITRARY direction restrictions (tag route-symmetry-dirs-any) the unchanged library is not symmetric in about 7% of the generated scenes (one of two pins at the same position finds no path, which one depends on the frame; U-turns at a restricted free end are found in one frame and not in another); these are reported as SPECFAIL `route-symmetry[dirs-any] <kind>.<pin|free-end>: ...` (known finding C20-restricted-ends-asymmetric) and counted as STAT finding.dirs-any.*; the documented configurations (outward-looking end on the outer edge of the scene, single pin on the scene-boundary side) have their own tag route-symmetry-dirs and are quiet on the unchanged tree. "
+              "Classes *-params (all public RoutingParameters / RoutingOptions, degenerate alignments): the cost compared over the frames is the Lean model of cost() "
+              "(Model/RouteCost.lean: length + segmentPenalty*bends + reverseDirectionPenalty*reversing edges, last edge of an orthogonal search exempt) evaluated on the A* "
+              "VERTEX PATH that the library reports through its own DebugHandler interface (the penalty is charged per visibility-graph edge, so the simplified route does not "
+              "determine it); anglePenalty (polyline) enters only as the interval [0, 0.992*anglePenalty] per bend; with >= 2 connectors and crossingPenalty / "
+              "fixedSharedPathPenalty / reverseDirectionPenalty set (tag route-symmetry-params-x) the cost involves the other connectors and is only counted; polyline routes along a line that "
+              "grazes a shape corner are counted, not judged. Not generated because the unchanged library is frame-dependent there (reported as findings): abutting shapes (zero-width "
+              "channel, opened in some orientations only); reverseDirectionPenalty with several connectors (the vertices the orthogonal visibility graph has on a line through another "
+              "connector's end point depend on the frame, and the penalty counts edges); overlapping shapes in polyline scenes. "
+              "Pin classes (half of the route-symmetry-params scenes): a connector source attached with ConnEnd(shape, classId) to a class of 2-4 pins; every image frame is a symmetry FOLLOWED BY A TRANSLATION "
+              "(integer, +-48) and a 9th frame is a pure translation by a multiple of 2^-10 up to +-512, the scene itself placed with the origin at a corner / inside / hundreds of units away; the cost judged is "
+              "path cost + pinEdgeExtra (Model/PinCone.lean: max(0.001, connectionCost + portDirectionPenalty unless target - pin lies in a cone of the pin's directions)) of the pin the vertex path leaves through; "
+              "which pin is chosen is only counted (equal-cost pins are legitimate alternatives). Not generated there, because the unchanged library is frame- or even run-dependent (reported): buffer 0 with pins "
+              "(another connector may run along the shape edge through a pin in some orientations only); two pins at one position; an EXCLUSIVE class with >= 2 connectors (who gets which pin is decided with ties "
+              "between pin edges broken by EdgeInf ADDRESSES in CmpVisEdgeRotation: per-connector costs differ between identical runs); for the same reason pin classes are not in the exact-translation classes.")
 TECHNIQUE = "Lean 4 invariance/uniqueness theorems (logic half) + run-twice / frame-change differential harness decided by an exact Lean driver (runtime half)"
 DESIGN_REF = "DESIGN.md section 6 C20"
 RULE = ("12 generator slots per round (250 rounds quick, 1200 thorough): route-twice polyline, route-twice orthogonal, vpsc-twice, layout-twice, "
@@ -32,7 +46,8 @@ RULE = ("12 generator slots per round (250 rounds quick, 1200 thorough): route-t
         "After these and the class cmp, own index ranges: route-symmetry-params (1000 quick / 4000 thorough) and route-translate-params (300 / 1500): EVERY public RoutingParameter "
         "(segment, angle, crossing, clusterCrossing, fixedSharedPath, portDirection penalties, shapeBufferDistance 0..4, idealNudgingDistance, reverseDirectionPenalty 1/2..500; dyadic values) "
         "non-default with probability 1/3..2/3 each, every RoutingOption flipped with probability 1/3; obstacles = rectangles and bars with arms (L/U/T/S pockets, overlapping pieces) in a random "
-        "one of 8 orientations; connector ends exactly aligned on one axis, across an obstacle from each other, on (buffered) shape-edge lines, shared between connectors. "
+        "one of 8 orientations; connector ends exactly aligned on one axis, across an obstacle from each other, on (buffered) shape-edge lines, shared between connectors; in half of the symmetry scenes a shape carries a pin class (2-4 pins on different sides at side midpoints / quarter points / corners, outward ConnDirFlags, proportional (ATTACH_POS_*) or absolute offsets, "
+        "inside offset, connection cost, exclusive or shared) used as the source of 1-2 connectors, portDirectionPenalty 4/16/100, pins transformed with the frame (place and flags). "
         "Scenes: 1-7 (thorough: up to 14) integer rectangles in grid cells, 1-7 connectors with ends on cell-border lines, segmentPenalty in "
         "{0,1,3,10,50}, shapeBufferDistance 0 or 1/2, "
         "optionally a shape move + second transaction. Between run A and run B of every *-twice case: heap scrambling, an unrelated router, an unrelated VPSC solve and unrelated libcola work touching process-global state (ConstrainedFDLayout with makeFeasible() default / non-default non-zero / one-sided borders + run(), overlap avoidance, cluster hierarchy; ConstrainedMajorizationLayout with overlap avoidance; removeoverlaps with fixed set and third pass); the static vpsc::Rectangle::xBorder/yBorder before and after each run are compared as extra observables. A *-twice case is non-trivial if the two runs saw different heap address "
@@ -55,7 +70,10 @@ EXPLANATION = ("(A) Logic half, Lean theorems for all inputs (Props/C20.lean): t
                "The reverse-direction rule of cost() (sign of the source->destination displacement per axis, penalty for an edge heading against it) is modelled and "
                "proved invariant under all 8 symmetries and translations for all displacements, zero components included (reverse_direction_rule_frame_invariant, "
                "path_costs_frame_invariant, optimal_orth_path_cost_frame_invariant; reverse_rule_guard_matters shows the variant with a wrong guard is not); the driver evaluates "
-               "the model on the real search's vertex paths in the 8 frames of scenes with all routing parameters / options set and exactly aligned end points.")
+               "the model on the real search's vertex paths in the 8 frames of scenes with all routing parameters / options set and exactly aligned end points. "
+               "The pin-cone rule of ConnEnd::assignPinVisibilityTo (portDirectionPenalty) is modelled (Model/PinCone.lean) and proved a function of target - pin (pin_cone_rule_translation_invariant, all positions) "
+               "and invariant under the 8 symmetries with the pin's flags transformed (pin_cone_rule_frame_invariant, pin_edge_cost_frame_invariant; pin_cone_from_origin_not_translation_invariant: looking from the origin is not); "
+               "the driver adds the model's pin-edge cost of the pin the real search chose, in 9 frames (symmetries followed by translations, and a pure translation).")
 
 def regenerate(ROOT, REPO):
     """the comparators handed to std::set / std::sort / list::sort / the pairing heap are regenerated from the C++ by
